@@ -39,6 +39,7 @@ const (
 	hostA     = "a.c14.test"
 	hostB     = "b.c14.test"
 	hostC     = "c.c14.test" // the bystander lease's hostname
+	hostD     = "d.c14.test" // where an update moves hostA to (hosts scheme "move")
 	groupName = "g"
 )
 
@@ -71,6 +72,7 @@ type world struct {
 	raws   []raw
 
 	forced bool
+	hosts  string     // hosts scheme, see hostsOf
 	rng    *rand.Rand // free mode only, guarded by mu
 	plan   freePlan
 
@@ -146,6 +148,22 @@ func manifestID(g *manifest.Group) int {
 }
 
 func mkGroup(id int) manifest.Group { return mkGroupHosts(id, []string{hostA, hostB}) }
+
+// hostsOf: the hostname dimension of a manifest content. The first manifest of a lease (content 0 of a deployment found
+// at start-up, content 1) always names hostA and hostB - these are what the manager reserves. Under scheme "move" every
+// later content names hostD instead of hostA, under "drop" it names no host at all, under "same" (default) nothing changes.
+func hostsOf(scheme string, content int) []string {
+	if content <= 1 {
+		return []string{hostA, hostB}
+	}
+	switch scheme {
+	case "move":
+		return []string{hostD, hostB}
+	case "drop":
+		return []string{}
+	}
+	return []string{hostA, hostB}
+}
 
 func mkGroupHosts(id int, hosts []string) manifest.Group {
 	return manifest.Group{
@@ -655,6 +673,7 @@ type worldOpts struct {
 	hnFail      bool
 	preexisting bool
 	bystander   bool
+	hosts       string
 	seed        int64
 	plan        freePlan
 	dseq        uint64
@@ -677,6 +696,7 @@ func newWorld(o worldOpts) (*world, error) {
 	w := &world{
 		notify:     make(chan struct{}, 1),
 		forced:     o.forced,
+		hosts:      o.hosts,
 		rng:        rand.New(rand.NewSource(o.seed)),
 		plan:       o.plan,
 		lease:      lid,
@@ -810,7 +830,7 @@ func (w *world) close() {
 // stimuli
 
 func (w *world) pubManifest(id int) error {
-	g := mkGroup(id)
+	g := mkGroupHosts(id, hostsOf(w.hosts, id))
 	m := manifest.Manifest{g}
 	ev := event.ManifestReceived{
 		LeaseID:  w.lease,
